@@ -50,7 +50,7 @@ META = {
         "correspondence harness. Modelled: convert-scf-to-cf (scf.for, scf.if), scf-for-loop-range-folding, "
         "scf-for-loop-flatten (both variants), scf-for-loop-unroll, licm (trait table + worklist on flat "
         "bodies), lower-affine (affine.apply expressions). Not covered by a model: scf.index_switch lowering, "
-        "lower-affine for/load/store, control-flow-hoist (exercised by the before/after evaluator only), "
+        "lower-affine for/load/store and control-flow-hoist (both exercised by the before/after evaluator only), "
         "desymref (not covered at all), the IR-manipulation lines of every pass (that is C01/C11)."),
 }
 COQ_TARGETS = ["C16/Enc.vo", "C16/ProofsFor.vo", "C16/ProofsLoops.vo", "C16/ProofsLicm.vo", "Props/C16.vo"]
@@ -266,6 +266,44 @@ class Ev:
             for r, v in zip(op.results, vals):
                 env[r] = v
             return None
+        if n == "memref.alloc":
+            shape = tuple(op.results[0].type.get_shape())
+            if any(d < 0 for d in shape):
+                raise Unsupported("dynamic memref")
+            env[op.results[0]] = {"shape": shape, "data": {}}
+            return None
+        if n in ("memref.load", "affine.load", "memref.store", "affine.store"):
+            st = n.endswith("store")
+            mem = g(op.operands[1 if st else 0])
+            vs = [g(v) for v in op.operands[(2 if st else 1):]]
+            if n.startswith("affine"):
+                m = op.map.data
+                vs = [_aff(r, vs[:m.num_dims], vs[m.num_dims:]) for r in m.results]
+            if len(vs) != len(mem["shape"]) or any(not (0 <= i < d) for i, d in zip(vs, mem["shape"])):
+                raise Trap("memref access out of bounds")
+            if st:
+                mem["data"][tuple(vs)] = g(op.operands[0])
+            else:
+                env[op.results[0]] = mem["data"].get(tuple(vs), 0)
+            return None
+        if n == "affine.for":
+            lbm, ubm = op.lowerBoundMap.data, op.upperBoundMap.data
+            if lbm.num_dims or lbm.num_symbols or ubm.num_dims or ubm.num_symbols:
+                raise Unsupported("affine.for with bound operands")
+            lb, ub, step = _aff(lbm.results[0], [], []), _aff(ubm.results[0], [], []), op.step.value.data
+            carried = [g(v) for v in op.operands]
+            if step <= 0:
+                self.nonpos = True
+            iv = lb
+            while iv < ub:
+                self.tick()
+                kind, carried = self.region(op.regions[0], [iv] + carried, env)
+                if kind != "yield":
+                    raise Unsupported(kind)
+                iv += step
+            for r, v in zip(op.results, carried):
+                env[r] = v
+            return None
         if n == "affine.apply":
             m = op.map.data
             vs = [g(v) for v in op.operands]
@@ -454,50 +492,133 @@ class Txt:
         return "\n".join(head + cs + self.lines + [f"  func.return {ret} : index", "}"])
 
 
-def body_lines(t: Txt, p, x, acc, ind):
-    """the generated loop body: acc' = a*acc + b*x + c ; eff(d*x + e*acc + g).  x None = iv-independent"""
-    def k(v):
+def norm_body(p, k):
+    """defaults for body descriptions written before multi-iter_args support (corpus, known findings)"""
+    q = dict(p)
+    q.setdefault("h", 0)
+    if "sel" not in q or len(q["sel"]) != k:
+        q["sel"] = ([-1] + list(range(1, k)))[:k]
+    return q
+
+
+def body_lines(t: Txt, p, x, accs, ind):
+    """the generated loop body over k = len(accs) loop-carried values v0..v(k-1):
+         eff(d*x + e*v0 + h*v1 + g);  new = a*v0 + b*x + c;
+         yield position j = new if sel[j] == -1 else v_sel[j]       (a SIMULTANEOUS assignment)
+       x None = iv-independent.  Returns the SSA names to yield."""
+    k = len(accs)
+    p = norm_body(p, k)
+
+    def kc(v):
         return t.ref(["c", v])
     ev_terms = []
     if x is not None:
         e1 = t.fresh()
-        t.emit(f"{e1} = arith.muli {x}, {k(p['d'])} : index", ind)
+        t.emit(f"{e1} = arith.muli {x}, {kc(p['d'])} : index", ind)
         ev_terms.append(e1)
-    if acc is not None:
+    if k >= 1:
         e2 = t.fresh()
-        t.emit(f"{e2} = arith.muli {acc}, {k(p['e'])} : index", ind)
+        t.emit(f"{e2} = arith.muli {accs[0]}, {kc(p['e'])} : index", ind)
         ev_terms.append(e2)
-    ev = k(p["g"])
+    if k >= 2:
+        e3 = t.fresh()
+        t.emit(f"{e3} = arith.muli {accs[1]}, {kc(p['h'])} : index", ind)
+        ev_terms.append(e3)
+    ev = kc(p["g"])
     for term in ev_terms:
         nv = t.fresh()
         t.emit(f"{nv} = arith.addi {term}, {ev} : index", ind)
         ev = nv
     t.emit(f"func.call @eff({ev}) : (index) -> ()", ind)
-    if acc is None:
-        return None
+    if k == 0:
+        return []
     t1 = t.fresh()
-    t.emit(f"{t1} = arith.muli {acc}, {k(p['a'])} : index", ind)
+    t.emit(f"{t1} = arith.muli {accs[0]}, {kc(p['a'])} : index", ind)
     if x is not None:
         t2, t3 = t.fresh(), t.fresh()
-        t.emit(f"{t2} = arith.muli {x}, {k(p['b'])} : index", ind)
+        t.emit(f"{t2} = arith.muli {x}, {kc(p['b'])} : index", ind)
         t.emit(f"{t3} = arith.addi {t1}, {t2} : index", ind)
         t1 = t3
     new = t.fresh()
-    t.emit(f"{new} = arith.addi {t1}, {k(p['c'])} : index", ind)
-    return new
+    t.emit(f"{new} = arith.addi {t1}, {kc(p['c'])} : index", ind)
+    return [new if sj == -1 else accs[sj] for sj in p["sel"]]
 
 
-def coq_body(p, use_x=True, has_acc=True):
-    """Coq term `cbody a b c d e g` equal to what body_lines emits"""
-    a, b, c = (p["a"], p["b"] if use_x else 0, p["c"]) if has_acc else (1, 0, 0)
-    d = p["d"] if use_x else 0
-    e = p["e"] if has_acc else 0
-    return "(cbody " + " ".join(coq_Z(v) for v in (a, b, c, d, e, p["g"])) + ")"
+def for_open(t: Txt, res, iv, lb, ub, st, inits, accs, ind=1):
+    k = len(accs)
+    if k:
+        it = ", ".join(f"{a} = {i}" for a, i in zip(accs, inits))
+        t.emit(f"{res}{':%d' % k if k > 1 else ''} = scf.for {iv} = {lb} to {ub} step {st} iter_args({it}) -> "
+               f"({', '.join(['index'] * k)}) {{", ind)
+    else:
+        t.emit(f"scf.for {iv} = {lb} to {ub} step {st} {{", ind)
 
 
-def rand_body(rng):
-    return {"a": rng.choice([0, 1, 1, 2]), "b": rng.choice([0, 1, 2, -1, 3]), "c": rng.randint(-2, 3),
-            "d": rng.choice([1, 1, 2, -1, 0]), "e": rng.choice([0, 0, 1]), "g": rng.randint(0, 3)}
+def yield_line(t: Txt, names, ind):
+    if names:
+        t.emit(f"scf.yield {', '.join(names)} : {', '.join(['index'] * len(names))}", ind)
+
+
+def res_names(res, k):
+    return [res] if k == 1 else [f"{res}#{j}" for j in range(k)]
+
+
+def finish(t: Txt, res, k):
+    """every loop result is observable: results 1.. through @eff, result 0 is returned"""
+    names = res_names(res, k)
+    for n in names[1:]:
+        t.emit(f"func.call @eff({n}) : (index) -> ()")
+    return t.module(names[0] if k else t.ref(["c", 0]))
+
+
+def case_k(case):
+    return case.get("n_iter", 1)
+
+
+def init_specs(case):
+    k = case_k(case)
+    return ([case["init"]] + list(case.get("init_more", [])) + [["c", 0]] * k)[:k]
+
+
+def coq_inits(case, inp):
+    return coq_Zs(val(sp, inp) for sp in init_specs(case))
+
+
+def coq_body(p, use_x=True, k=1):
+    """Coq term `mbody a b c d e g h sel` equal to what body_lines emits for k loop-carried values"""
+    p = norm_body(p, k)
+    b, d = (p["b"], p["d"]) if use_x else (0, 0)
+    return ("(mbody " + " ".join(coq_Z(v) for v in (p["a"], b, p["c"], d, p["e"], p["g"], p["h"])) + " "
+            + coq_Zs(p["sel"]) + ")")
+
+
+def rand_body(rng, k=1):
+    p = {"a": rng.choice([0, 1, 1, 2]), "b": rng.choice([0, 1, 2, -1, 3]), "c": rng.randint(-2, 3),
+         "d": rng.choice([1, 1, 2, -1, 0]), "e": rng.choice([0, 0, 1]), "g": rng.randint(0, 3),
+         "h": rng.choice([0, 1, 1, 2]) if k >= 2 else 0}
+    if k <= 1:
+        p["sel"] = [-1] * k
+    else:
+        r = rng.random()
+        if r < 0.3:                                    # swap / rotation of the carried values
+            rot = rng.randint(1, k - 1)
+            p["sel"] = [(j + rot) % k for j in range(k)]
+        elif r < 0.5:                                  # arbitrary pass-through (also duplicates)
+            p["sel"] = [rng.randrange(k) for _ in range(k)]
+        elif r < 0.8:                                  # mixed: one new value, the others permuted
+            p["sel"] = [rng.randrange(k) for _ in range(k)]
+            p["sel"][rng.randrange(k)] = -1
+        else:                                          # accumulator first, rest straight through
+            p["sel"] = [-1] + list(range(1, k))
+    return p
+
+
+def rand_k(rng):
+    return rng.choice([0, 1, 1, 2, 2, 3])
+
+
+def rand_more(rng, k, consts=(0, 1, 2, 5, -3)):
+    return [rand_spec(rng, list(consts)) for _ in range(max(0, k - 1))]
 
 
 def rand_spec(rng, consts, p_arg=0.4):
@@ -565,37 +686,33 @@ def guarded(f):
 def s2c_text(case):
     t = Txt()
     if case["kind"] == "for":
-        lb, ub, st, init = (t.ref(case[k]) for k in ("lb", "ub", "step", "init"))
-        if case["n_iter"]:
-            t.emit(f"%r = scf.for %iv = {lb} to {ub} step {st} iter_args(%acc = {init}) -> (index) {{")
-            new = body_lines(t, case["body"], "%iv", "%acc", 2)
-            t.emit(f"scf.yield {new} : index", 2)
-            t.emit("}")
-            return t.module("%r")
-        t.emit(f"scf.for %iv = {lb} to {ub} step {st} {{")
-        body_lines(t, case["body"], "%iv", None, 2)
+        lb, ub, st = (t.ref(case[k]) for k in ("lb", "ub", "step"))
+        k = case_k(case)
+        accs = [f"%acc{j}" for j in range(k)]
+        for_open(t, "%r", "%iv", lb, ub, st, [t.ref(sp) for sp in init_specs(case)], accs)
+        yield_line(t, body_lines(t, case["body"], "%iv", accs, 2), 2)
         t.emit("}")
-        return t.module(t.ref(["c", 0]))
+        return finish(t, "%r", k)
     # scf.if: condition a0 < a1
     t.emit("%cond = arith.cmpi slt, %a0, %a1 : index")
     init = t.ref(case["init"])
     p = case["body"]
     if case["has_results"]:
         t.emit("%r = scf.if %cond -> (index) {")
-        new = body_lines(t, p, "%a2", init, 2)
+        new = body_lines(t, p, "%a2", [init], 2)[0]
         t.emit(f"scf.yield {new} : index", 2)
         t.emit("} else {")
-        new = body_lines(t, case["body2"], "%a3", init, 2)
+        new = body_lines(t, case["body2"], "%a3", [init], 2)[0]
         t.emit(f"scf.yield {new} : index", 2)
         t.emit("}")
         return t.module("%r")
     t.emit("scf.if %cond {")
-    body_lines(t, p, "%a2", None, 2)
+    body_lines(t, p, "%a2", [], 2)
     if case["has_else"]:
         t.emit("} else {")
-        body_lines(t, case["body2"], "%a3", None, 2)
+        body_lines(t, case["body2"], "%a3", [], 2)
     t.emit("}")
-    return t.module(init)
+    return t.module(t.ref(["c", 0]))
 
 
 def s2c_readback(f, marks):
@@ -651,7 +768,9 @@ def s2c_readback(f, marks):
         else:
             row = [pay, -9, 0, 0]
         # unmarked leftovers may only be the pre-existing straight-line setup (constants, cmpi of the if)
-        if any(o.name not in ("arith.constant", "arith.cmpi") for o in unmarked):
+        # ... and, in the exit block, the calls that make loop results 1.. observable
+        allowed = ("arith.constant", "arith.cmpi") + (("func.call",) if term.name == "func.return" else ())
+        if any(o.name not in allowed for o in unmarked):
             row[0] = -9
         out.append(row)
     return out
@@ -686,22 +805,21 @@ def s2c_impl(case):
 def s2c_coq(case):
     p = case["body"]
     if case["kind"] == "for":
-        has_acc = bool(case["n_iter"])
+        k = case_k(case)
         runs = []
         for inp in case["inputs"]:
-            lb, ub, st = (val(case[k], inp) for k in ("lb", "ub", "step"))
-            init = val(case["init"], inp) if has_acc else 0
-            runs.append(f"c16_run_for {coq_body(p, True, has_acc)} {coq_Z(lb)} {coq_Z(ub)} {coq_Z(st)} {coq_Z(init)}")
+            lb, ub, st = (val(case[k_], inp) for k_ in ("lb", "ub", "step"))
+            runs.append(f"c16_run_for {coq_body(p, True, k)} {coq_Z(lb)} {coq_Z(ub)} {coq_Z(st)} {coq_inits(case, inp)}")
         return f"L [I 0; c16_shape_for; L {coq_list(runs)}]"
     runs = []
     hr, he = case["has_results"], case["has_else"]
     for inp in case["inputs"]:
-        init = val(case["init"], inp)
+        inits = coq_Zs([val(case["init"], inp)] if hr else [])
         cond = inp[0] < inp[1]
         # then-body reads x = a2, else-body x = a3; with results the incoming acc is `init`
-        bt = f"(fun s => {coq_body(p, True, hr)} {coq_Z(inp[2])} s)"
-        be = f"(fun s => {coq_body(case['body2'], True, hr)} {coq_Z(inp[3])} s)"
-        runs.append(f"c16_run_if {bt} {be} {coq_bool(cond)} {coq_bool(he)} {coq_bool(hr)} {coq_Z(init)}")
+        bt = f"(fun s => {coq_body(p, True, int(hr))} {coq_Z(inp[2])} s)"
+        be = f"(fun s => {coq_body(case['body2'], True, int(hr))} {coq_Z(inp[3])} s)"
+        runs.append(f"c16_run_if {bt} {be} {coq_bool(cond)} {coq_bool(he)} {coq_bool(hr)} {inits}")
     return f"L [I 0; c16_shape_if {coq_bool(he)} {coq_bool(hr)}; L {coq_list(runs)}]"
 
 
@@ -713,9 +831,10 @@ def s2c_cases(rng, n):
         if rng.random() < 0.65:
             step = rng.choice([["c", 1], ["c", 2], ["c", 3], ["a", 2], ["c", 0], ["c", -1]]) if rng.random() < 0.9 \
                 else rand_spec(rng, consts)
+            k = rand_k(rng)
             cases.append({"kind": "for", "lb": rand_spec(rng, consts), "ub": rand_spec(rng, consts), "step": step,
-                          "init": rand_spec(rng, consts), "n_iter": rng.choice([0, 1, 1]), "body": rand_body(rng),
-                          "inputs": inputs})
+                          "init": rand_spec(rng, consts), "init_more": rand_more(rng, k), "n_iter": k,
+                          "body": rand_body(rng, k), "inputs": inputs})
         else:
             hr = rng.random() < 0.5
             cases.append({"kind": "if", "has_results": hr, "has_else": hr or rng.random() < 0.5,
@@ -735,8 +854,10 @@ def ran_loop(case, res):
 
 def fold_text(case):
     t = Txt()
-    lb, ub, st, init = (t.ref(case[k]) for k in ("lb", "ub", "step", "init"))
-    t.emit(f"%r = scf.for %iv = {lb} to {ub} step {st} iter_args(%acc = {init}) -> (index) {{")
+    lb, ub, st = (t.ref(case[k]) for k in ("lb", "ub", "step"))
+    k = case_k(case)
+    accs = [f"%acc{j}" for j in range(k)]
+    for_open(t, "%r", "%iv", lb, ub, st, [t.ref(sp) for sp in init_specs(case)], accs)
     cur = "%iv"
     for j, l in enumerate(case["chain"]):
         if l["src"][0] == "in":
@@ -750,10 +871,9 @@ def fold_text(case):
         a, b = (cur, c) if (l["pos"] == 0 or l["kind"] == "sub") else (c, cur)
         t.emit(f"%v{j} = {opn} {a}, {b} : index", 2)
         cur = f"%v{j}"
-    new = body_lines(t, case["body"], cur, "%acc", 2)
-    t.emit(f"scf.yield {new} : index", 2)
+    yield_line(t, body_lines(t, case["body"], cur, accs, 2), 2)
     t.emit("}")
-    return t.module("%r")
+    return finish(t, "%r", k)
 
 
 def the_for(f):
@@ -796,15 +916,41 @@ def fold_coq(case):
         for l in case["chain"]:
             k = {"add": "FAdd", "mul": "FMul", "sub": "FOther"}[l["kind"]]
             links.append(f"mkLink {coq_nat(2 if l['extra'] else 1)} {k} {coq_bool(l['src'][0] != 'in')} {coq_Z(link_c(l, inp))}")
-        lb, ub, st, init = (val(case[k], inp) for k in ("lb", "ub", "step", "init"))
-        outs.append(f"c16_fold {coq_body(case['body'])} {coq_list(links)} {coq_Z(lb)} {coq_Z(ub)} {coq_Z(st)} {coq_Z(init)}")
+        lb, ub, st = (val(case[k], inp) for k in ("lb", "ub", "step"))
+        outs.append(f"c16_fold {coq_body(case['body'], True, case_k(case))} {coq_list(links)} {coq_Z(lb)} {coq_Z(ub)} "
+                    f"{coq_Z(st)} {coq_inits(case, inp)}")
     return f"L {coq_list(outs)}"
 
 
 def fold_cases(rng, n):
     cases = []
     consts = [0, 1, 2, 3, 5, 8, -2]
-    for _ in range(n):
+
+    def link(kind, src):
+        return {"kind": kind, "src": src, "pos": rng.randint(0, 1), "extra": False}
+
+    def pos_mul():
+        return ["c", rng.choice([2, 3, 5])] if rng.random() < 0.7 else ["a", rng.choice([2, 3])]
+
+    def addend():
+        return ["c", rng.choice([1, 4, -3, 7])] if rng.random() < 0.7 else ["a", rng.randrange(N_ARGS)]
+    for i in range(n):
+        kk = rng.choice([1, 1, 2, 3])
+        if i % 3 == 0:
+            # structured chains with TWO multiplications and >= 3 trips: (i*a)*c, (i*a+b)*c, ((i+b)*a)*c+b,
+            # multipliers != 1 so that a stale / partial step update changes the result
+            shape = rng.choice(["mm", "mam", "amma", "mma"])
+            chain = {"mm": [link("mul", pos_mul()), link("mul", pos_mul())],
+                     "mam": [link("mul", pos_mul()), link("add", addend()), link("mul", pos_mul())],
+                     "amma": [link("add", addend()), link("mul", pos_mul()), link("mul", pos_mul()), link("add", addend())],
+                     "mma": [link("mul", pos_mul()), link("mul", pos_mul()), link("add", addend())]}[shape]
+            lbv = rng.choice([0, 1, -2])
+            stv = rng.choice([1, 2, 3])
+            cases.append({"lb": ["c", lbv], "ub": ["c", lbv + stv * rng.randint(3, 6) - rng.randint(0, stv - 1)],
+                          "step": ["c", stv], "init": rand_spec(rng, consts), "init_more": rand_more(rng, kk),
+                          "n_iter": kk, "chain": chain, "body": rand_body(rng, kk),
+                          "inputs": [[1, 2, 2, 3], [3, 1, 5, 2], [0, 4, 3, 3]] + rand_inputs(rng, 1, 1, 6)})
+            continue
         chain = []
         for _ in range(rng.choice([0, 1, 1, 2, 2, 3])):
             kind = rng.choice(["add", "mul", "mul", "add", "sub"])
@@ -818,8 +964,8 @@ def fold_cases(rng, n):
             chain.append({"kind": kind, "src": src, "pos": rng.randint(0, 1), "extra": rng.random() < 0.1})
         cases.append({"lb": rand_spec(rng, consts), "ub": rand_spec(rng, consts),
                       "step": rng.choice([["c", 1], ["c", 2], ["c", 3], ["a", 2]]),
-                      "init": rand_spec(rng, consts), "chain": chain, "body": rand_body(rng),
-                      "inputs": rand_inputs(rng, 4)})
+                      "init": rand_spec(rng, consts), "init_more": rand_more(rng, kk), "n_iter": kk,
+                      "chain": chain, "body": rand_body(rng, kk), "inputs": rand_inputs(rng, 4)})
     return cases
 
 
@@ -847,21 +993,22 @@ def fold_nontrivial(case, res):
 
 def flat_text(case):
     t = Txt()
-    olb, oub, ost, ilb, iub, ist, init = (t.ref(case[k]) for k in ("olb", "oub", "ostep", "ilb", "iub", "istep", "init"))
+    olb, oub, ost, ilb, iub, ist = (t.ref(case[k]) for k in ("olb", "oub", "ostep", "ilb", "iub", "istep"))
     w, use = case["wiring"], case["use"]
-    outer_iter = case["n_iter"] == 1 and w != "inner_only"
-    inner_iter = case["n_iter"] == 1
-    if outer_iter:
-        t.emit(f"%r = scf.for %o = {olb} to {oub} step {ost} iter_args(%oa = {init}) -> (index) {{")
-    else:
-        t.emit(f"scf.for %o = {olb} to {oub} step {ost} {{")
+    k = case_k(case)
+    inits = [t.ref(sp) for sp in init_specs(case)]
+    ko = 0 if w == "inner_only" else k          # loop-carried values of the outer / inner loop
+    oas = [f"%oa{j}" for j in range(ko)]
+    ias = [f"%ia{j}" for j in range(k)]
+    for_open(t, "%r", "%o", olb, oub, ost, inits, oas)
     if case["perfect"] == "pre":
-        t.emit(f"%pre = arith.addi {init}, {t.ref(['c', 0])} : index", 2)
-    if inner_iter:
-        iinit = "%oa" if (outer_iter and w != "inner_init_other") else init
-        t.emit(f"%ri = scf.for %i = {ilb} to {iub} step {ist} iter_args(%ia = {iinit}) -> (index) {{", 2)
-    else:
-        t.emit(f"scf.for %i = {ilb} to {iub} step {ist} {{", 2)
+        t.emit(f"%pre = arith.addi {t.ref(['c', 1])}, {t.ref(['c', 0])} : index", 2)
+    iin = list(oas) if ko else list(inits)
+    if ko and w == "inner_init_other":
+        iin[-1] = inits[-1]                       # one inner init is not the outer block argument
+    if ko and w == "inner_init_swapped" and k >= 2:
+        iin[0], iin[1] = iin[1], iin[0]           # outer arguments forwarded in a different order
+    for_open(t, "%ri", "%i", ilb, iub, ist, iin, ias, 2)
     x = None
     if use in ("add", "add_extra"):
         t.emit("%x = arith.addi %o, %i : index", 3)
@@ -876,16 +1023,19 @@ def flat_text(case):
         x = "%x"
     if use == "add_extra":
         t.emit(f"%dead = arith.addi %o, {t.ref(['c', 0])} : index", 3)
-    new = body_lines(t, case["body"], x, "%ia" if inner_iter else None, 3)
-    if inner_iter:
-        t.emit(f"scf.yield {new} : index", 3)
+    yield_line(t, body_lines(t, case["body"], x, ias, 3), 3)
     t.emit("}", 2)
     if case["perfect"] == "post":
-        t.emit(f"%post = arith.addi {init}, {t.ref(['c', 0])} : index", 2)
-    if outer_iter:
-        t.emit(f"scf.yield {'%oa' if w == 'yield_other' else '%ri'} : index", 2)
+        t.emit(f"%post = arith.addi {t.ref(['c', 1])}, {t.ref(['c', 0])} : index", 2)
+    if ko:
+        ys = res_names("%ri", k)
+        if w == "yield_other":
+            ys[-1] = oas[-1]
+        if w == "yield_swapped" and k >= 2:
+            ys[0], ys[1] = ys[1], ys[0]
+        yield_line(t, ys, 2)
     t.emit("}")
-    return t.module("%r" if outer_iter else t.ref(["c", 0]))
+    return finish(t, "%r", ko)
 
 
 def flat_impl(case):
@@ -914,17 +1064,16 @@ def coq_optZ(spec):
 
 def flat_coq(case):
     use = {"none": "UNone", "add": "UAddBoth", "add_rev": "UAddBoth"}.get(case["use"], "UOther")
-    has_acc = case["n_iter"] == 1
-    body = coq_body(case["body"], case["use"] != "none", has_acc)
+    body = coq_body(case["body"], case["use"] != "none", case_k(case))
     outs = []
     for inp in case["inputs"]:
-        init = val(case["init"], inp) if (has_acc and case["wiring"] != "inner_only") else 0
+        init = coq_inits(case, inp)
         outs.append(
             f"c16_flat {body} {coq_bool(case['perfect'] == 'yes')} {coq_bool(case['wiring'] == 'ok')} "
             f"{coq_Z(val(case['olb'], inp))} {coq_bool(case['olb'][0] == 'c')} {coq_Z(val(case['oub'], inp))} "
             f"{coq_bool(case['oub'][0] == 'c')} "
             f"{coq_optZ(case['ostep'])} {coq_optZ(case['ilb'])} {coq_optZ(case['iub'])} {coq_optZ(case['istep'])} "
-            f"{use} {coq_Z(init)}")
+            f"{use} {init}")
     return f"L {coq_list(outs)}"
 
 
@@ -932,10 +1081,11 @@ def flat_cases(rng, n):
     cases = []
     for _ in range(n):
         use = rng.choice(["none", "none", "none", "add", "add", "add_rev", "outer_only", "add_extra", "sub"])
-        n_iter = rng.choice([0, 1, 1])
+        n_iter = rand_k(rng)
         wiring = "ok"
-        if n_iter and rng.random() < 0.15:
-            wiring = rng.choice(["inner_init_other", "yield_other", "inner_only"])
+        if n_iter and rng.random() < 0.2:
+            wiring = rng.choice(["inner_init_other", "yield_other", "inner_only"]
+                                + (["inner_init_swapped", "yield_swapped"] * 2 if n_iter >= 2 else []))
         ostep = rng.choice([["c", 1], ["c", 2], ["c", 3], ["c", 4], ["c", 6], ["a", 2]]) if rng.random() < 0.95 else ["c", 0]
         if use != "none" and rng.random() < 0.75 and ostep[0] == "c" and ostep[1] > 0:
             # bias towards the shape the pass fuses: inner 0 .. outer_step step K with K | outer_step
@@ -945,12 +1095,13 @@ def flat_cases(rng, n):
             ilb = rng.choice([["c", 0], ["c", 0], ["c", 1], ["c", 5], ["a", 3]])
             iub = rng.choice([["c", 0], ["c", 2], ["c", 4], ["c", 5], ["c", 6], ["c", 9], ["a", 3]])
             istep = rng.choice([["c", 1], ["c", 2], ["c", 3], ["c", 4], ["a", 2]]) if rng.random() < 0.95 else ["c", 0]
-        body = rand_body(rng)
+        body = rand_body(rng, n_iter)
         body["a"] = min(body["a"], 1)      # up to ~160 iterations: keep the accumulator far from 2^63
         olb = rng.choice([["c", 0], ["c", 0], ["c", 0], ["c", 1], ["a", 0], ["c", -2]])
         oub = rng.choice([["c", 3], ["c", 4], ["c", 6], ["c", 8], ["c", 9], ["a", 1], ["a", 1], ["c", -2], ["c", 0]])
         cases.append({"olb": olb, "oub": oub, "ostep": ostep, "ilb": ilb, "iub": iub, "istep": istep,
-                      "init": rand_spec(rng, [0, 1, 3]), "use": use, "n_iter": n_iter, "wiring": wiring,
+                      "init": rand_spec(rng, [0, 1, 3]), "init_more": rand_more(rng, n_iter), "use": use,
+                      "n_iter": n_iter, "wiring": wiring,
                       "perfect": rng.choice(["yes"] * 8 + ["pre", "post"]), "body": body,
                       "inputs": rand_inputs(rng, 4)})
     return cases
@@ -972,17 +1123,13 @@ def flat_nontrivial(case, res):
 
 def unroll_text(case):
     t = Txt()
-    lb, ub, st, init = (t.ref(case[k]) for k in ("lb", "ub", "step", "init"))
-    if case["n_iter"]:
-        t.emit(f"%r = scf.for %iv = {lb} to {ub} step {st} iter_args(%acc = {init}) -> (index) {{")
-        new = body_lines(t, case["body"], "%iv", "%acc", 2)
-        t.emit(f"scf.yield {new} : index", 2)
-        t.emit("}")
-        return t.module("%r")
-    t.emit(f"scf.for %iv = {lb} to {ub} step {st} {{")
-    body_lines(t, case["body"], "%iv", None, 2)
+    lb, ub, st = (t.ref(case[k]) for k in ("lb", "ub", "step"))
+    k = case_k(case)
+    accs = [f"%acc{j}" for j in range(k)]
+    for_open(t, "%r", "%iv", lb, ub, st, [t.ref(sp) for sp in init_specs(case)], accs)
+    yield_line(t, body_lines(t, case["body"], "%iv", accs, 2), 2)
     t.emit("}")
-    return t.module(t.ref(["c", 0]))
+    return finish(t, "%r", k)
 
 
 @guarded
@@ -1000,24 +1147,41 @@ def unroll_impl(case):
 
 def unroll_coq(case):
     fire = all(case[k][0] == "c" for k in ("lb", "ub", "step"))
-    has_acc = bool(case["n_iter"])
     runs = []
     for inp in case["inputs"]:
         lb, ub, st = (val(case[k], inp) for k in ("lb", "ub", "step"))
-        init = val(case["init"], inp) if has_acc else 0
-        runs.append(f"({coq_Z(lb)}, {coq_Z(ub)}, {coq_Z(st)}, {coq_Z(init)})")
-    return f"c16_unroll {coq_bool(fire)} {coq_body(case['body'], True, has_acc)} {coq_list(runs)}"
+        runs.append(f"({coq_Z(lb)}, {coq_Z(ub)}, {coq_Z(st)}, {coq_inits(case, inp)})")
+    return f"c16_unroll {coq_bool(fire)} {coq_body(case['body'], True, case_k(case))} {coq_list(runs)}"
 
 
 def unroll_cases(rng, n):
     cases = []
-    for _ in range(n):
+    for i in range(n):
+        if i % 3 == 0:
+            # constant bounds, >= 2 trips, 2-3 loop-carried values with distinct inits whose yield permutes /
+            # rotates / mixes them: the unrolled code must realise the yield as a simultaneous assignment
+            kk = rng.choice([2, 2, 3])
+            body = rand_body(rng, kk)
+            rot = rng.randint(1, kk - 1)
+            body["sel"] = [(j + rot) % kk for j in range(kk)]
+            if rng.random() < 0.4:
+                body["sel"][rng.randrange(kk)] = -1
+            if rng.random() < 0.3:
+                body["sel"] = list(reversed(range(kk)))
+            body["h"] = rng.choice([1, 2])
+            lbv, stv = rng.choice([0, 1, -2]), rng.choice([1, 2, 3])
+            inits = rng.sample([1, 2, 5, -3, 7, 11], kk)
+            cases.append({"lb": ["c", lbv], "ub": ["c", lbv + stv * rng.randint(2, 5)], "step": ["c", stv],
+                          "init": ["c", inits[0]], "init_more": [["c", v] for v in inits[1:]], "n_iter": kk,
+                          "body": body, "inputs": rand_inputs(rng, 2)})
+            continue
         allc = rng.random() < 0.8
         sp = (lambda cs: ["c", rng.choice(cs)]) if allc else (lambda cs: rand_spec(rng, cs, 0.5))
         step = sp([1, 1, 2, 3, 5, -1, -2]) if rng.random() < 0.93 else ["c", 0]
+        kk = rand_k(rng)
         cases.append({"lb": sp([0, 0, 1, 4, -3, 9]), "ub": sp([0, 3, 6, 10, 17, -5, 1]), "step": step,
-                      "init": rand_spec(rng, [0, 1, 2]), "n_iter": rng.choice([0, 1, 1]), "body": rand_body(rng),
-                      "inputs": rand_inputs(rng, 2)})
+                      "init": rand_spec(rng, [0, 1, 2]), "init_more": rand_more(rng, kk), "n_iter": kk,
+                      "body": rand_body(rng, kk), "inputs": rand_inputs(rng, 2)})
     return cases
 
 
@@ -1146,16 +1310,53 @@ def licm_nontrivial(case, res):
 AFF_OPS = {"add": "Add", "mul": "Mul", "mod": "Mod", "floordiv": "FloorDiv", "ceildiv": "CeilDiv"}
 
 
-def aff_expr(e):
+def aff_expr(e, api=False):
+    """direct construction (no simplification) or, with api=True, through AffineExpr's own operators
+    (`-`, `+`, `*`, `//`, `%`), i.e. whatever structure xDSL's simplification produces"""
     from xdsl.ir.affine import (AffineBinaryOpExpr, AffineBinaryOpKind, AffineConstantExpr, AffineDimExpr,
-                                AffineSymExpr)
+                                AffineExpr, AffineSymExpr)
     if e[0] == "c":
-        return AffineConstantExpr(e[1])
+        return AffineExpr.constant(e[1]) if api else AffineConstantExpr(e[1])
     if e[0] == "d":
-        return AffineDimExpr(e[1])
+        return AffineExpr.dimension(e[1]) if api else AffineDimExpr(e[1])
     if e[0] == "s":
-        return AffineSymExpr(e[1])
+        return AffineExpr.symbol(e[1]) if api else AffineSymExpr(e[1])
+    if api:
+        if e[0] == "neg":
+            return -aff_expr(e[1], True)
+        a, b = aff_expr(e[1], True), aff_expr(e[2], True)
+        if e[0] == "add":
+            return a + b
+        if e[0] == "sub":
+            return a - b
+        if e[0] == "mul":
+            return a * b
+        if e[0] == "mod":
+            return a % b
+        if e[0] == "floordiv":
+            return a // b
+        return a.ceil_div(b)
     return AffineBinaryOpExpr(getattr(AffineBinaryOpKind, AFF_OPS[e[0]]), aff_expr(e[1]), aff_expr(e[2]))
+
+
+def aff_struct(x):
+    """AffineExpr object -> nested-list description (the structure the lowering will see)"""
+    k = type(x).__name__
+    if k == "AffineConstantExpr":
+        return ["c", x.value]
+    if k == "AffineDimExpr":
+        return ["d", x.position]
+    if k == "AffineSymExpr":
+        return ["s", x.position]
+    name = {v: kk for kk, v in AFF_OPS.items()}[x.kind.name]
+    return [name, aff_struct(x.lhs), aff_struct(x.rhs)]
+
+
+def case_expr(case):
+    """the expression tree actually present in the IR (after xDSL's simplification for api cases)"""
+    if case.get("api"):
+        return aff_struct(aff_expr(case["expr"], True))
+    return case["expr"]
 
 
 def aff_module(case):
@@ -1166,7 +1367,8 @@ def aff_module(case):
     nd, ns = case["nd"], case["ns"]
     idx = IndexType()
     block = Block(arg_types=[idx] * N_ARGS)
-    ap = affine.ApplyOp(block.args[:nd + ns], AffineMapAttr(AffineMap(nd, ns, (aff_expr(case["expr"]),))))
+    ap = affine.ApplyOp(block.args[:nd + ns],
+                        AffineMapAttr(AffineMap(nd, ns, (aff_expr(case["expr"], bool(case.get("api"))),))))
     block.add_ops([ap, func.ReturnOp(ap.result)])
     f = func.FuncOp("f", ([idx] * N_ARGS, [idx]), Region(block))
     m = ModuleOp([f])
@@ -1203,13 +1405,14 @@ def coq_aexpr(e):
 def aff_coq(case):
     nd = case["nd"]
     runs = [f"({coq_Zs(inp[:nd])}, {coq_Zs(inp[nd:nd + case['ns']])})" for inp in case["inputs"]]
-    return f"c16_affine {coq_aexpr(case['expr'])} {coq_list(runs)}"
+    return f"c16_affine {coq_aexpr(case_expr(case))} {coq_list(runs)}"
 
 
 def aff_cases(rng, n):
     cases = []
-    for _ in range(n):
-        nd, ns = rng.randint(1, 2), rng.randint(0, 2)
+    for i in range(n):
+        nd = rng.randint(1, 3)
+        ns = rng.randint(0, min(2, N_ARGS - nd))
 
         def leaf():
             x = rng.random()
@@ -1218,6 +1421,37 @@ def aff_cases(rng, n):
             if x < 0.6 and ns:
                 return ["s", rng.randrange(ns)]
             return ["c", rng.choice([0, 1, 2, 3, 4, 7, -1, -5])]
+
+        def term(d=1):
+            return leaf() if d == 0 or rng.random() < 0.5 else ["mul", leaf(), ["c", rng.choice([2, 3, 5])]]
+
+        if i % 3 == 1:
+            # subtractions / negations written through AffineExpr's operators, in BOTH operand orders,
+            # constants on the left, reverse indexing (7 - d0, N-1-i), (d0-d1)*3 - (d2-d0)
+            def sgen(d):
+                if d == 0 or rng.random() < 0.2:
+                    return leaf()
+                k = rng.choice(["sub", "sub", "neg", "add", "mul"])
+                if k == "neg":
+                    return ["add", ["neg", sgen(d - 1)], sgen(d - 1)] if rng.random() < 0.7 else ["neg", sgen(d - 1)]
+                if k == "mul":
+                    return ["mul", sgen(d - 1), ["c", rng.choice([2, 3, -1, -2])]]
+                if k == "sub" and rng.random() < 0.35:
+                    return ["sub", ["c", rng.choice([7, 15, 1, 0])], sgen(d - 1)]
+                return [k, sgen(d - 1), sgen(d - 1)]
+            cases.append({"nd": nd, "ns": ns, "api": True, "expr": sgen(rng.randint(1, 3)),
+                          "inputs": rand_inputs(rng, 5, -9, 20)})
+            continue
+        if i % 3 == 2:
+            # the same shapes built directly: a negated term as LEFT or RIGHT addend of an add
+            neg = ["mul", term(), ["c", -1]]
+            other = rng.choice([term(), ["c", rng.choice([7, 15, -2])], ["add", term(), term()]])
+            e = ["add", neg, other] if rng.random() < 0.6 else ["add", other, neg]
+            if rng.random() < 0.4:
+                e = rng.choice([["mul", e, ["c", 3]], ["add", e, ["mul", term(), ["c", -1]]],
+                                ["add", ["mul", term(), ["c", -1]], e], ["floordiv", e, ["c", 2]]])
+            cases.append({"nd": nd, "ns": ns, "expr": e, "inputs": rand_inputs(rng, 5, -9, 20)})
+            continue
 
         def gen(d):
             if d == 0 or rng.random() < 0.25:
@@ -1263,15 +1497,105 @@ def aff_known(case, res):
     nd = case["nd"]
     for i in r[2]:
         inp = case["inputs"][i]
-        if not aff_neg_mod(case["expr"], inp[:nd], inp[nd:nd + case["ns"]])[1]:
+        if not aff_neg_mod(case_expr(case), inp[:nd], inp[nd:nd + case["ns"]])[1]:
             return None
     return "C16-kf-5"
 
 
 def aff_nontrivial(case, res):
     if isinstance(res, list) and len(res) == 2 and len(res[0]) >= 2:
-        return ckey({"e": case["expr"]})
+        return ckey({"e": case["expr"], "api": bool(case.get("api"))})
     return None
+
+
+# ---------------------------------------------------------------------------- lower-affine: for / load / store (oracle only)
+
+def affmem_module(case):
+    """%m = alloc memref<16xindex>; fill with -1; affine.for i = 0 to N step s { store (i*p + a0*q) -> m[st(i, a1)] };
+    x = load m[ld(a2, a3)]; eff(x); dump every cell through @eff; return x"""
+    from xdsl.dialects import affine, arith, func, memref
+    from xdsl.dialects.builtin import AffineMapAttr, IndexType, IntegerAttr, ModuleOp
+    from xdsl.ir import Block, Region
+    from xdsl.ir.affine import AffineMap
+    idx = IndexType()
+    api = bool(case.get("api"))
+
+    def amap(e):
+        return AffineMapAttr(AffineMap(2, 0, (aff_expr(e, api),)))
+
+    def const(v):
+        return arith.ConstantOp(IntegerAttr.from_index_int_value(v))
+    entry = Block(arg_types=[idx] * N_ARGS)
+    a0, a1, a2, a3 = entry.args
+    alloc = memref.AllocOp.get(idx, shape=[16])
+    cm1, cp, cq = const(-1), const(case["p"]), const(case["q"])
+    b0 = Block(arg_types=[idx])
+    b0.add_ops([affine.StoreOp(cm1.result, alloc.memref, [b0.args[0]]), affine.YieldOp.get()])
+    fill = affine.ForOp.from_region([], [], [], [], 0, 16, Region(b0))
+    b1 = Block(arg_types=[idx])
+    v1 = arith.MuliOp(b1.args[0], cp.result)
+    v2 = arith.MuliOp(a0, cq.result)
+    v = arith.AddiOp(v1.result, v2.result)
+    b1.add_ops([v1, v2, v, affine.StoreOp(v.result, alloc.memref, [b1.args[0], a1], amap(case["st"])),
+                affine.YieldOp.get()])
+    main = affine.ForOp.from_region([], [], [], [], case["lo"], case["N"], Region(b1), case["step"])
+    ld = affine.LoadOp(alloc.memref, [a2, a3], amap(case["ld"]))
+    call = func.CallOp("eff", [ld.result], [])
+    b2 = Block(arg_types=[idx])
+    l2 = affine.LoadOp(alloc.memref, [b2.args[0]])
+    b2.add_ops([l2, func.CallOp("eff", [l2.result], []), affine.YieldOp.get()])
+    dump = affine.ForOp.from_region([], [], [], [], 0, 16, Region(b2))
+    entry.add_ops([alloc, cm1, cp, cq, fill, main, ld, call, dump, func.ReturnOp(ld.result)])
+    m = ModuleOp([func.FuncOp.external("eff", [idx], []), func.FuncOp("f", ([idx] * N_ARGS, [idx]), Region(entry))])
+    m.verify()
+    return m
+
+
+def affmem_impl(case):
+    m = affmem_module(case)
+    before = m.clone()
+    apply_pass(m, "lower-affine")
+    left = sum(1 for o in m.walk() if o.name.startswith("affine."))
+    remember(case, before, m, case["inputs"])
+    r = recall(case)
+    ran = sum(1 for inp in case["inputs"] if evaluate(before, inp)["status"] == "ok")
+    return [left, ran]
+
+
+def affmem_cases(rng, n):
+    cases = []
+    for _ in range(n):
+        api = rng.random() < 0.6
+
+        def rev(i, o):          # index expressions over d0 = i (or a2), d1 = a1 (or a3), mostly in 0..15
+            c = rng.choice([7, 9, 12, 15])
+            forms = [["sub", ["c", c], i], ["sub", o, i], ["add", ["neg", i], o], ["add", ["neg", i], ["c", c]],
+                     ["sub", ["sub", ["c", c], ["c", 1]], i], ["add", i, o], ["add", i, ["c", rng.choice([0, 1, 4])]],
+                     ["sub", ["add", o, ["c", 3]], i], ["add", ["mul", i, ["c", -1]], o]]
+            e = rng.choice(forms)
+            return e
+
+        def direct(e):          # the same expression in the direct (operator-free) description
+            if e[0] == "sub":
+                return ["add", direct(e[1]), ["mul", direct(e[2]), ["c", -1]]]
+            if e[0] == "neg":
+                return ["mul", direct(e[1]), ["c", -1]]
+            if e[0] in ("c", "d", "s"):
+                return e
+            return [e[0], direct(e[1]), direct(e[2])]
+        st, ld = rev(["d", 0], ["d", 1]), rev(["d", 0], ["d", 1])
+        if not api:
+            st, ld = direct(st), direct(ld)
+        inputs = [[rng.randint(0, 3), rng.randint(4, 12), rng.randint(0, 9), rng.randint(4, 15)] for _ in range(4)]
+        inputs.append([rng.randint(-2, 3), rng.randint(-3, 15), rng.randint(-3, 15), rng.randint(-3, 15)])
+        cases.append({"api": api, "st": st, "ld": ld, "lo": rng.choice([0, 0, 1]), "N": rng.randint(3, 7),
+                      "step": rng.choice([1, 1, 2]), "p": rng.choice([1, 3, 5]), "q": rng.choice([0, 1, 2]),
+                      "inputs": inputs})
+    return cases
+
+
+def affmem_nontrivial(case, res):
+    return ckey({k: v for k, v in case.items() if k != "inputs"}) if res and res[1] > 0 else None
 
 
 # ============================================================================ family 7: nested programs (oracle only)
@@ -1423,10 +1747,10 @@ FAMILIES = {
     "licm": (licm_cases, licm_impl, licm_coq, licm_known, licm_nontrivial),
     "lower-affine": (aff_cases, aff_impl, aff_coq, aff_known, aff_nontrivial),
 }
-SIZES = {"quick": {"scf-to-cf": 60, "range-folding": 90, "flatten": 110, "unroll": 60, "licm": 90,
-                   "lower-affine": 120, "programs": 70},
-         "thorough": {"scf-to-cf": 900, "range-folding": 1500, "flatten": 2000, "unroll": 900, "licm": 1500,
-                      "lower-affine": 2500, "programs": 1500}}
+SIZES = {"quick": {"scf-to-cf": 60, "range-folding": 90, "flatten": 110, "unroll": 75, "licm": 80,
+                   "lower-affine": 150, "programs": 60, "affine-memory": 60},
+         "thorough": {"scf-to-cf": 900, "range-folding": 1500, "flatten": 2000, "unroll": 1200, "licm": 1500,
+                      "lower-affine": 3000, "programs": 1500, "affine-memory": 1200}}
 
 # hand-picked seeds that always run first (DESIGN section 11 witnesses and boundary shapes)
 CORPUS = {
@@ -1510,11 +1834,14 @@ def run(ctx: Ctx):
     multi_differential(ctx, specs)
     pcases = prog_cases(rng, sizes["programs"])
     oracle_only(ctx, "nested-programs", pcases, prog_impl, generic_holds(prog_impl), None, prog_nontrivial)
+    mcases = affmem_cases(rng, sizes["affine-memory"])
+    oracle_only(ctx, "lower-affine-for-load-store", mcases, affmem_impl, generic_holds(affmem_impl), None,
+                affmem_nontrivial)
     ctx.coverage["rule"] = __doc__.split("\n\n", 1)[1][:1400]
     ctx.coverage["semantics_dependent_inputs_not_listed"] = (
         f"{NOTES['semantics_dependent_inputs']} input(s) differed only under the cmpi-slt reading of a non-positive "
         "step produced by the pass (range folding by a negative multiplier) and agree under Python-range semantics")
-    ctx.coverage["not_modelled"] = ["scf.index_switch lowering", "lower-affine for/load/store",
+    ctx.coverage["not_modelled"] = ["scf.index_switch lowering", "lower-affine for/load/store (oracle only)",
                                     "control-flow-hoist (oracle only)", "desymref"]
     ctx.coverage["pipelines_nested_programs"] = PIPELINES
 
